@@ -544,6 +544,61 @@ def _direction_check(ctx, rng):
         ctx.violation("spec", "controller at a tap limit reports not converged, but the only possible step moves vm_pu from %.5f to %.5f, away from the band %s" % (vm, vm2, band), case)
 
 
+def _multi_element_oracle(ctx, rng):
+    """controllers over several elements (element_index lists): on return EVERY element must satisfy the convergence
+    condition - evaluated here from the tables, not through is_converged - and the results must be fresh"""
+    net = build_net(rng)
+    case = {"kind": "multi_element"}
+    lvb = [int(b) for b in net.bus.index if net.bus.at[b, "vn_kv"] == 0.4]
+    sg = []
+    for b in lvb:
+        sg.append(int(pp.create_sgen(net, b, p_mw=rng.randint(8, 64) / 128, q_mvar=0.0)))
+    which = rng.choice(["char", "char", "disc"]) if len(lvb) >= 2 else "char"
+    if which == "char" and len(sg) >= 2:
+        q = rng.choice([0.05, 0.1, 0.2])
+        ch = Characteristic(net, [0.90, 0.98, 1.02, 1.10], [q, 0.0, 0.0, -q])
+        buses = [int(net.sgen.at[i, "bus"]) for i in sg]
+        tol = rng.choice([1e-3, 1e-4])
+        pc.CharacteristicControl(net, "sgen", "q_mvar", sg, "res_bus", "vm_pu", buses, ch.index, tol=tol)
+        case.update(ctrl="char", sgens=sg, tol=tol)
+    else:
+        tids = [int(t) for t in net.trafo.index if net.bus.at[net.trafo.at[t, "lv_bus"], "vn_kv"] == 0.4 and net.trafo.at[t, "in_service"]]
+        if len(tids) < 2:
+            return
+        vs = rng.choice([0.98, 1.0, 1.02])
+        pc.DiscreteTapControl(net, tids, vs - 0.015, vs + 0.015, side="lv")
+        case.update(ctrl="disc", trafos=tids, band=[vs - 0.015, vs + 0.015])
+    try:
+        pc.run_control(net, **PF)
+    except Exception as e:
+        ctx.count("multi_element_raised_%s" % type(e).__name__)
+        ctx.case(case, nontrivial=False)
+        return
+    case["net"] = pp.to_json(_strip(net))
+    if case["ctrl"] == "char":
+        for i, b in zip(sg, buses):
+            want = float(ch(net.res_bus.at[b, "vm_pu"]))
+            have = float(net.sgen.at[i, "q_mvar"])
+            if not abs(want - have) < tol:
+                ctx.violation("spec", "run_control returned but element sgen %d of the characteristic controller is not converged: "
+                              "q_mvar %.6f, characteristic of the bus voltage %.6f, tol %g" % (i, have, want, tol), case)
+                break
+    else:
+        for t in tids:
+            vm = float(net.res_bus.at[net.trafo.at[t, "lv_bus"], "vm_pu"])
+            tap, lo, hi = (float(net.trafo.at[t, c]) for c in ("tap_pos", "tap_min", "tap_max"))
+            if not (case["band"][0] < vm < case["band"][1] or tap in (lo, hi) or math.isnan(vm)):
+                ctx.violation("spec", "run_control returned but trafo %d of the multi-element tap controller is outside its band "
+                              "(vm %.5f, band %s) with tap %r not at a limit" % (t, vm, case["band"], tap), case)
+                break
+    snap = net.res_bus.vm_pu.values.copy()
+    pp.runpp(net, **PF)
+    if not np.allclose(snap, net.res_bus.vm_pu.values, atol=1e-6, equal_nan=True):
+        ctx.violation("spec", "multi-element controller: res_bus differs from a fresh power flow of the final element state", case)
+    ctx.count("multi_element_" + case["ctrl"])
+    ctx.case(case, nontrivial=True)
+
+
 def _cmp_slots(a, b):
     """a: dict from impl; b: list of [k, v] from model"""
     bd = {k: v for k, v in b}
@@ -648,6 +703,8 @@ def run(ctx):
             ctx.disagreement("get_controller_order differs: impl %s model %s" % (io, om), case)
     for k in range(ctx.n(30, 300)):
         _direction_check(ctx, rng)
+    for k in range(ctx.n(30, 300)):
+        _multi_element_oracle(ctx, rng)
 
 
 def replay(ctx, rec):
